@@ -1585,7 +1585,11 @@ pub fn check_image(img: &[u8], cross_hash: bool) -> Result<(Forest, Decoder<'_>)
 
 /// Sync hook for M1: judge the durable image at every completed sync (C10) and compute the
 /// copy-on-write protected set (C06/C20).
+/// when set, every sync hook cross-checks XXH3 between the two independent implementations
+pub static CROSS_HASH: std::sync::atomic::AtomicBool = std::sync::atomic::AtomicBool::new(false);
+
 pub fn sync_hook(cross_hash: bool) -> crate::backend::SyncHook {
+    let cross_hash = cross_hash || CROSS_HASH.load(std::sync::atomic::Ordering::Relaxed);
     std::sync::Arc::new(move |img: &[u8]| {
         let mut v = crate::backend::SyncVerdict::default();
         if img.len() < HEADER_LEN || img[..9] != MAGIC {
